@@ -10,6 +10,7 @@ import ast
 from ..astq import arg, ext_names, handler_classes, inside, is_name, loc, lock_withs, names_in, stmt_of, in_body
 from ..cfg import CFG, any_call_may_raise
 from ..model import AnalysisError, head, norm
+from . import roles
 
 TOTAL_CALLS = {"str", "repr", "len", "id", "hash", "int", "float", "bool"}
 
@@ -141,8 +142,9 @@ def check(ctx):
         ctx.ob("C20.R1", f"{f.short}/sort-key", ok, loc(f, c), why, norm(c)[:140])
     ctx.floor("C20.R1", "orderings of scope-derived data", n_scope, 1)
     # R1b: the three concrete observers order scopes only through that function
+    shared = {f for f, c in sites if scope_derived(m, f, c) or arg(c, None, "key") is not None}
     users = [f for f in m.funcs.values() if f.module.name.startswith("uberjob.progress") and
-             any(g.name == "sorted_scope_items" for c in f.own_calls() for g in m.callee_funcs(f, c))]
+             any(g in shared for c in f.own_calls() for g in m.callee_funcs(f, c))]
     ctx.floor("C20.R1", "renderers using the shared scope ordering", len(users), 3)
     ctx.rule("C20.R6", "premise of 'every reachable state renders': the totals a run announces are multiplicities >= 1 (evaluated on a symbolic plan) - the HTML display divides by the total")
     from . import engine as E_e
@@ -153,7 +155,7 @@ def check(ctx):
     ctx.run(rule_observer_instance_state, "C20.R2")
     ctx.run(rule_widget_max_before_value, "C20.R2")
     # ---------------------------------------------------------------- R2
-    spo = m.one_class("SimpleProgressObserver", "OBSERVER")
+    spo = roles.simple_observer(m)
     ut = [tg for (c, call, tg) in m.thread_targets if c.cls is spo]
     if len(ut) != 1:
         raise AnalysisError("update thread target not found")
@@ -192,7 +194,7 @@ def check(ctx):
         ctx.ob("C20.R4", f"{f.short}/forwards", ok, loc(f), f"forwards ({', '.join(want)}) to the state" if ok else "does not forward its arguments to the same-named state method unconditionally")
     ctx.floor("C20.R4", "notification methods", n, 4)
     # ---------------------------------------------------------------- R5
-    stc = m.one_class("State", "STATE")
+    stc = roles.progress_state(m)
     comp, fail, run = (stc.methods.get(x) for x in ("increment_completed", "increment_failed", "increment_running"))
     if not (comp and fail and run):
         raise AnalysisError("State transition methods missing")
@@ -215,14 +217,17 @@ def check(ctx):
     ok = shape(comp, "completed") == shape(fail, "failed")
     ctx.ob("C20.R5", "State.increment_completed~increment_failed", ok, loc(comp), "equal as ASTs modulo the incremented counter" if ok else
            "completed/failed transitions differ beyond the counter (running counts / elapsed attribution drift)")
+    # the method of the state class that reads the clock and attributes the elapsed time (today update_weighted_elapsed)
+    clock_readers = [f_ for f_ in stc.methods.values() if f_.name != "__init__" and
+                     any(ext_names(m, f_, c_) & {"time.time", "time.monotonic", "time.perf_counter"} for c_ in f_.own_calls())]
+    if len(clock_readers) != 1:
+        raise AnalysisError("State: the method that attributes elapsed time (the one reading the clock) not found")
+    uw = clock_readers[0]
     for f in (comp, fail, run):
         first = [s_ for s_ in f.node.body if not (isinstance(s_, ast.Expr) and isinstance(s_.value, ast.Constant))][0]
-        ok = isinstance(first, ast.Expr) and norm(first.value) == "self.update_weighted_elapsed()"
+        ok = isinstance(first, ast.Expr) and isinstance(first.value, ast.Call) and uw in m.callee_funcs(f, first.value) and not first.value.args
         ctx.ob("C20.R5", f"{f.short}/elapsed-first", ok, loc(f), "elapsed time is attributed before any counter changes" if ok else
                "counters change before elapsed time is attributed")
-    uw = stc.methods.get("update_weighted_elapsed")
-    if uw is None:
-        raise AnalysisError("State.update_weighted_elapsed missing")
     gu = CFG(uw, may_raise=lambda n: False)
     sets = [n for n in uw.own_nodes() if isinstance(n, ast.Assign) and norm(n.targets[0]) == "self._prev_time"]
     sn = set()
@@ -269,7 +274,7 @@ def check(ctx):
 
 
 def update_thread_of(m):
-    spo = m.one_class("SimpleProgressObserver", "OBSERVER")
+    spo = roles.simple_observer(m)
     ut = [tg for (c, call, tg) in m.thread_targets if c.cls is spo]
     if len(ut) != 1:
         raise AnalysisError("update thread target not found")
@@ -350,16 +355,20 @@ def rule_update_thread(ctx, rid, spo, upd, failing_output=False, termination_onl
             tick()
             return st["set"]
 
-        def render(*a, **kw):
-            tick()
-            events.append(("render", st["held"], me.attrs.get("_stale"), len(events)))
-            return ("rendering", len(events) - 1)
-
-        def output(v):
-            tick()
-            events.append(("output", st["held"], v))
-            if failing_output:
-                raise AbsRaise("OSError: the display's sink fails (disk full, closed pipe)")
+        def abstract_method(name):
+            # the display's own methods (abstract in the base class): a call that is handed a rendering is the *output* of that
+            # rendering, any other call *produces* a rendering - whatever the two methods are called
+            def fn(*a, **kw):
+                tick()
+                tokens = [x for x in list(a) + list(kw.values()) if isinstance(x, tuple) and x[:1] == ("rendering",)]
+                if tokens:
+                    events.append(("output", st["held"], tokens[0]))
+                    if failing_output:
+                        raise AbsRaise("OSError: the display's sink fails (disk full, closed pipe)")
+                    return None
+                events.append(("render", st["held"], me.attrs.get("_stale"), len(events)))
+                return ("rendering", len(events) - 1)
+            return fn
 
         def clock():
             tick()
@@ -367,9 +376,7 @@ def rule_update_thread(ctx, rid, spo, upd, failing_output=False, termination_onl
         lock = Obj(None, {"__enter__": Stub("__enter__", enter), "__exit__": Stub("__exit__", leave),
                           "acquire": Stub("acquire", lambda *a, **kw: enter() or True), "release": Stub("release", leave)}, name="lock")
         event = Obj(None, {"wait": Stub("wait", wait), "is_set": Stub("is_set", is_set), "set": Stub("set", lambda: None)}, name="done")
-        state = Obj(None, {"update_weighted_elapsed": Stub("uwe", lambda: None), "section_scope_mapping": {}}, name="state")
-        interp = Interp(m, stubs={"State": Stub("State", lambda *a, **kw: state)},
-                        ext={"threading.Lock": lambda: lock, "threading.RLock": lambda: lock, "threading.Event": lambda: event,
+        interp = Interp(m, ext={"threading.Lock": lambda: lock, "threading.RLock": lambda: lock, "threading.Event": lambda: event,
                              "time.time": clock, "time.monotonic": clock, "threading.Thread": lambda *a, **kw: Obj(None, {}, "thread")})
         try:
             kw = {p_: v_ for p_, v_ in (("initial_update_delay", 0.5), ("min_update_interval", 1.0), ("max_update_interval", 10.0))
@@ -380,8 +387,11 @@ def rule_update_thread(ctx, rid, spo, upd, failing_output=False, termination_onl
             interp.call_func(init, None, [], kw, bound_self=me)
         except AbsRaise as e:
             raise AnalysisError(f"abstract evaluation of {init.qualname} raised {e.value!r}")
-        me.attrs["_render"] = Stub("_render", render)
-        me.attrs["_output"] = Stub("_output", output)
+        abstract = [n_ for n_ in spo.methods if spo.is_abstract_method(n_)]
+        if len(abstract) < 2:
+            raise AnalysisError(f"{spo.name}: expected abstract render/output methods for the displays to implement")
+        for n_ in abstract:
+            me.attrs[n_] = Stub(n_, abstract_method(n_))
         st["n"] = 0
         st["live"] = True
         why = None
@@ -469,7 +479,7 @@ def rule_observer_instance_state(ctx, rid):
 def rule_widget_max_before_value(ctx, rid):
     """IPython progress bars: `max` is assigned before `value` (the widget clamps value to the current max)."""
     m = ctx.model
-    cls = m.one_class("IPythonProgressObserver", "IPYTHON")
+    cls = roles.ipython_observer(m)
     n = 0
     for f in cls.methods.values():
         stores = [(nd.lineno, norm(nd.targets[0].value), nd.targets[0].attr) for nd in f.own_nodes()
